@@ -110,6 +110,33 @@ def _table_rows(s, pick, consts, gm):
     return rows
 
 
+def _verdict_name(v):
+    """the local name a picked value merely forwards: NAME, or detection_field(col, NAME)"""
+    if isinstance(v, ast.Call) and getattr(v.func, 'id', getattr(v.func, 'attr', None)) == 'detection_field' and len(v.args) >= 2:
+        v = v.args[1]
+    return v.id if isinstance(v, ast.Name) else None
+
+
+def _forwarded(fnode, gm, s, v, pick, depth=0):
+    """(guard chain, verdict expression, statement) rows for a picked statement.  When the verdict is computed into a local first
+    (`ok = c >= value` in each arm, one store of `ok` afterwards), the rows are the local's definitions, each under its own guards
+    together with the store's."""
+    name = _verdict_name(v)
+    params = {a.arg for a in fnode.args.args + fnode.args.kwonlyargs}
+    if name is None or name in params or depth > 3:
+        return [(tuple(gm.chain(s) or ()), v, s)]
+    defs = [d for d in ast.walk(fnode) if isinstance(d, ast.Assign) and len(d.targets) == 1 and isinstance(d.targets[0], ast.Name)
+            and d.targets[0].id == name and d is not s and pick(d) is None and d.lineno < s.lineno]
+    if not defs:
+        return [(tuple(gm.chain(s) or ()), v, s)]
+    out = []
+    for d in defs:
+        for chain, val, st in _forwarded(fnode, gm, d, d.value, pick, depth + 1):
+            st._store = getattr(s, '_store', s)       # the statement that stores the verdict, for rules about the stored value
+            out.append((tuple(chain) + tuple(gm.chain(s) or ()), val, st))
+    return out
+
+
 def table(fnode, pick, consts=None):
     """pick(stmt) -> verdict expression or None.  -> [(label, markers, comparator, stmt)]"""
     gm = GuardMap(fnode)
@@ -125,9 +152,10 @@ def table(fnode, pick, consts=None):
             continue
         v = pick(s)
         if v is not None:
-            lits, marks = guard_facts(gm.chain(s) or ())
-            label = tuple(sorted(lits)) if lits else (('incompat',) if 'incompat' in marks else ('else',))
-            rows.append((label, frozenset(marks), comparator(v), s))
+            for chain, val, st in _forwarded(fnode, gm, s, v, pick):
+                lits, marks = guard_facts(chain)
+                label = tuple(sorted(lits)) if lits else (('incompat',) if 'incompat' in marks else ('else',))
+                rows.append((label, frozenset(marks), comparator(val), st))
         for f in ('body', 'orelse', 'finalbody'):
             b = getattr(s, f, None)
             if isinstance(b, list):
